@@ -214,7 +214,7 @@ def falsify(ctx, deep=False):
         if i == 3:
             # heights in whole metres given as an integer array
             N = 24
-            inp.update({"kind": "int-heights", "h": (numpy.arange(N) * 250).tolist(), "h_int": True, "p": (rng.nprng().uniform(0.05, 1.0, size=N) * 1e-13).tolist(),
+            inp.update({"kind": "int-heights", "h": (numpy.arange(N) * 1000).tolist(), "h_int": True, "p": (rng.nprng().uniform(0.05, 1.0, size=N) * 1e-13).tolist(),
                         "w": [10.0] * N, "L": 4, "og": True, "Lg": 4, "R": 3, "gctm": False})
         if i in (4, 6):
             npr_ = rng.nprng(); n_ = rng.randint(6, 14); L_ = rng.randint(2, 4)
@@ -225,9 +225,15 @@ def falsify(ctx, deep=False):
                     break
             pg_ = npr_.uniform(0.05, 1.0, size=n_ + 1) * 1e-13; pg_[0] *= rng.choice([1, 5, 20])
             inp.update({"kind": "gctm-ground", "h": hg_.tolist(), "h_int": False, "p": pg_.tolist(), "w": [10.0] * (n_ + 1), "L": L_, "og": False, "gctm": True})
+        if i in (8, 9):
+            # a height gap at least one slab wide (dense surface-layer sampling plus a few high layers): some slab holds no layer
+            npg = rng.nprng(); ng_ = rng.randint(4, 9)
+            hg_ = numpy.sort(numpy.concatenate([npg.uniform(0, 600, size=ng_), npg.uniform(14000, 20000, size=rng.randint(1, 3))]))
+            inp.update({"kind": "gap", "h": hg_.tolist(), "h_int": False, "p": (npg.uniform(0.05, 1.0, size=len(hg_)) * 1e-13).tolist(), "w": npg.uniform(2, 40, size=len(hg_)).tolist(),
+                        "L": rng.randint(3, 6), "og": False, "gctm": False})
         if i == 7:
             # a fixed altitude grid on which only a few bins carry turbulence: as many non-zero layers as groups asked for, or fewer
-            N_ = 16; Lg_ = rng.randint(3, 5); K_ = rng.randint(2, Lg_)
+            N_ = 16; Lg_ = rng.randint(3, 5); K_ = rng.randint(2, Lg_ - 1)          # fewer turbulent layers than groups asked for
             ps_ = numpy.zeros(N_); ps_[rng.nprng().choice(N_, size=K_, replace=False)] = rng.nprng().uniform(0.2, 1.0, size=K_) * 1e-13
             inp.update({"kind": "sparse-grid", "h": (numpy.arange(N_) * 1000.0).tolist(), "h_int": False, "p": ps_.tolist(), "w": [10.0] * N_, "L": 2, "og": True, "Lg": Lg_, "R": 3, "gctm": False})
         if i in (1, 2):
